@@ -5,6 +5,7 @@ README_extensions.md — *not* from rtamt's code.  Written once over an algebra 
 Formulas are nested tuples:  ('var','x') ('const',1.5) (op, child[, child][, a, b])
 """
 INF = float('inf')
+TWIN = None      # vacuity guard: a deliberately wrong oracle (set by core.decide for twin obligations only)
 
 UN = {'not': 'not({0})', 'neg': '-({0})', 'abs': 'abs({0})', 'sqrt': 'sqrt({0})', 'exp': 'exp({0})', 'ln': 'ln({0})',
       'rise': 'rise({0})', 'fall': 'fall({0})',
@@ -153,11 +154,11 @@ def rho(A, f, w, n, pred=None):
     if k == 'fall':
         return [-p[t] if t == 0 else mn([p[t - 1], -p[t]]) for t in R]
     if k == 'prev':
-        return [L(INF) if t == 0 else p[t - 1] for t in R]
+        return [L(-INF if TWIN == 'pad' else INF) if t == 0 else p[t - 1] for t in R]
     if k == 's_prev':
         return [L(-INF) if t == 0 else p[t - 1] for t in R]
     if k == 'next':
-        return [p[t + 1] if t + 1 < n else L(INF) for t in R]
+        return [p[t + 1] if t + 1 < n else L(-INF if TWIN == 'pad' else INF) for t in R]
     if k == 's_next':
         return [p[t + 1] if t + 1 < n else L(-INF) for t in R]
     if k == 'once':
@@ -170,18 +171,20 @@ def rho(A, f, w, n, pred=None):
         return [mn(p[t:n]) for t in R]
     if k == 'once_t':
         a, b = f[2], f[3]
-        return [mx([p[tp] for tp in range(max(0, t - b), t - a + 1)]) for t in R]
+        sh = 1 if TWIN == 'window' else 0          # twin: the oldest sample of the window is dropped
+        return [mx([p[tp] for tp in range(max(0, t - b + sh), t - a + 1)]) for t in R]
     if k == 'historically_t':
         a, b = f[2], f[3]
         return [mn([p[tp] for tp in range(max(0, t - b), t - a + 1)]) for t in R]
     if k == 'eventually_t':
         a, b = f[2], f[3]
-        return [mx([p[tp] for tp in range(t + a, min(t + b, n - 1) + 1)]) for t in R]
+        sh = 1 if TWIN == 'window' else 0
+        return [mx([p[tp] for tp in range(t + a, min(t + b - sh, n - 1) + 1)]) for t in R]
     if k == 'always_t':
         a, b = f[2], f[3]
         return [mn([p[tp] for tp in range(t + a, min(t + b, n - 1) + 1)]) for t in R]
     if k == 'and':
-        return [mn([p[t], q[t]]) for t in R]
+        return [(mx if TWIN == 'minmax' else mn)([p[t], q[t]]) for t in R]
     if k == 'or':
         return [mx([p[t], q[t]]) for t in R]
     if k == 'implies':
@@ -207,7 +210,8 @@ def rho(A, f, w, n, pred=None):
     if k == 'neq':
         return [abs(p[t] - q[t]) for t in R]
     if k == 'since':
-        return [mx([mn([q[tp]] + [p[tpp] for tpp in range(tp + 1, t + 1)]) for tp in range(0, t + 1)]) for t in R]
+        hi = 0 if TWIN == 'since' else 1            # twin: the witness may not be the current sample
+        return [mx([mn([q[tp]] + [p[tpp] for tpp in range(tp + 1, t + 1)]) for tp in range(0, t + hi)]) for t in R]
     if k == 'until':
         return [mx([mn([q[tp]] + [p[tpp] for tpp in range(t, tp)]) for tp in range(t, n)]) for t in R]
     if k == 'since_t':
@@ -255,7 +259,7 @@ def sat(A, f, w, n, truth=None):
         p = sat(A, f[1], w, n, truth)
         q = sat(A, f[2], w, n, truth)
     And, Or, Not, B = A.And, A.Or, A.Not, A.bool
-    if k == 'not': return [Not(p[t]) for t in R]
+    if k == 'not': return [p[t] if TWIN == 'sat' else Not(p[t]) for t in R]
     if k == 'and': return [And(p[t], q[t]) for t in R]
     if k == 'or': return [Or(p[t], q[t]) for t in R]
     if k == 'implies': return [Or(Not(p[t]), q[t]) for t in R]
@@ -267,7 +271,7 @@ def sat(A, f, w, n, truth=None):
     if k == 's_prev': return [B(False) if t == 0 else p[t - 1] for t in R]
     if k == 'next': return [p[t + 1] if t + 1 < n else B(True) for t in R]
     if k == 's_next': return [p[t + 1] if t + 1 < n else B(False) for t in R]
-    if k == 'once': return [Or(*p[0:t + 1]) for t in R]
+    if k == 'once': return [Or(*p[(1 if TWIN == 'sat' and t > 0 else 0):t + 1]) for t in R]
     if k == 'historically': return [And(*p[0:t + 1]) for t in R]
     if k == 'eventually': return [Or(*p[t:n]) for t in R]
     if k == 'always': return [And(*p[t:n]) for t in R]
